@@ -222,8 +222,35 @@ def special_blocks(case, rng):
     return case
 
 
+def bss_case(rng):
+    """a data section whose interval is only partly initialized: blocks in the uninitialized tail, a gap no block
+    covers, alignment on the block behind the gap - and a request that changes the size of the initialized part"""
+    case = emodify.gen_case(rng, nblocks=rng.randint(1, 3), with_data=False, nedits=0)
+    n0 = rng.choice([1, 2, 3, 4])
+    ds = [{"kind": "data", "bytes": [rng.randrange(256) for _ in range(n0)], "syms": [{"name": "D0", "at_end": False}]}]
+    for i in range(rng.randint(1, 2)):
+        d = {"kind": "data", "bytes": [0] * rng.choice([2, 4, 8]), "uninit": True, "gap_before": rng.choice([0, 1, 2, 3]),
+             "syms": [{"name": "U%d" % i, "at_end": False}]}
+        if rng.random() < 0.7:
+            d["align"] = rng.choice([2, 4, 8])
+        ds.append(d)
+    case["sections"] = [".data"]
+    case["sect:.data"] = ds
+    first = len(case["text"])
+    k = rng.random()
+    if k < 0.6:
+        case["edits"] = [{"op": "insert", "block": first, "off": rng.randint(0, n0), "asm": ".byte %d" % rng.randrange(256)}]
+    elif k < 0.8 and n0 > 1:
+        case["edits"] = [{"op": "delete", "block": first, "off": 0, "len": 1}]
+    else:
+        case["edits"] = [{"op": "insert", "block": 0, "off": 0, "asm": "nop"}]
+    return case
+
+
 def run(ctx):
     pending = []
+    for _ in range(ctx.budget(60, 1500)):
+        check_case(ctx, bss_case(ctx.rng), pending)
     for c in LE.load_corpus():
         ctx.count("corpus")
         check_case(ctx, c, pending)
